@@ -32,6 +32,16 @@ CLAIMED = {
              "three targets is parsed and validated by vlib/ilcheck.py; data definitions are compared in size/alignment with the C object as laid "
              "out by clang; output-failure injection checks that status 0 is only returned with the complete output. Exploration level.",
         note="ilcheck.py is written from QBE's IL reference, not run against QBE itself (QBE is not installed); rules are permissive where QBE's behaviour is uncertain."),
+    "C01": dict(
+        category="exploration", design_ref="DESIGN.md 3/C01, 2.3-2.6",
+        engine="hypothesis+enumeration",
+        technique="differential property-based testing: Hypothesis typed-grammar program generators; emitted IL executed through an IL->C translator under ASan and compared with gcc/clang (ASan+UBSan) runs and an independent Python model of C arithmetic",
+        text="Generated UB-free programs (expressions over all arithmetic types with boundary values, bit-fields, conversions, aggregates and their "
+             "copies, initialisation, control flow, calls incl. variadic/aggregate, VLAs, alloca, static/thread/compound objects) and a hand-written corpus are "
+             "compiled for the three targets; the IL is validated, executed via il2c+gcc+ASan and its chk_* output and exit status compared with two reference "
+             "compilers (and the cmodel prediction for generator A). Exploration level: differences, traps and out-of-bounds accesses found are violations.",
+        note="IL semantics are il2c's reading of QBE's IL reference (QBE not installed); cases where gcc and clang disagree or report UB are discarded; "
+             "constructs of three recorded findings are steered away from (avoid switches) and replayed separately."),
 }
 
 NOT_YET = "check not built yet in this round (planned per DESIGN.md section 10); no claim is made"
